@@ -57,6 +57,19 @@ func (s *Spec) AllAttrs(td *TypeDef) ([]*Attr, []string) {
 	req := append([]string{}, td.Required...)
 	if td.Reference != "" {
 		attrs = s.inheritFromReference(td, attrs)
+		// the required names of the referenced type apply to the attributes of the same name
+		// the referring type defines (goa merges the whole list; names it does not define have
+		// no attribute to apply to)
+		if base := s.TypeDefByName(td.Reference); base != nil {
+			_, br := s.AllAttrs(base)
+			for _, n := range br {
+				for _, a := range attrs {
+					if a.Name == n && !IsRequired(req, n) {
+						req = append(req, n)
+					}
+				}
+			}
+		}
 	}
 	if td.Extend != "" {
 		if base := s.TypeDefByName(td.Extend); base != nil {
